@@ -381,6 +381,9 @@ def run_case(case):
 def gen_case(rng, prop):
     metric = rng.choice(["euclidean", "manhattan", "squared_euclidean"])
     kind = {"C12": "arcs"}.get(prop) or rng.choice(["unsup", "knnsup"] if prop != "C04" else ["knnsup"])
+    if prop in ("C12", "C13", "C14") and rng.random() < 0.25:
+        # the statements speak of "all metrics": the registry has non-symmetric ones (d(x, y) != d(y, x))
+        metric = rng.choice(["pearson", "neyman"])
     if kind == "arcs":
         X = gen_points(rng, 2, 8)
         case = {"kind": "arcs", "X": X, "metric": metric, "k": rng.randint(1, min(5, len(X) + 1)),
@@ -435,7 +438,7 @@ def explore(tier="quick", prop="C12"):
     stats = {"evaluations": 0, "distinct_nontrivial": 0, "samples": []}
     seen = set()
     failure = None
-    n_cases = {"quick": 220, "thorough": 4000}[tier]
+    n_cases = {"quick": 1200, "thorough": 12000}[tier]
     for _ in range(n_cases):
         case = gen_case(rng, prop)
         res = run_case(case)
@@ -453,7 +456,7 @@ def explore(tier="quick", prop="C12"):
             failure = {"kind": "knn-case", "case": case, "observed": res}
             break
     stats["rule"] = ("real KNNSubgraph / UnsupervisedOPF / KNNSupervisedOPF on generated sample sets (n<=9, lattice with "
-                     "duplicates or random points, 3 metrics, pre-computed matrices with shuffled indices, k<=5) against "
+                     "duplicates or random points, 3 symmetric + 2 non-symmetric metrics, pre-computed matrices with shuffled indices, k<=5) against "
                      "brute-force oracles of the property statement; non-trivial = distinct case with >= 3 samples")
     return stats, failure
 
